@@ -139,6 +139,22 @@ def run_replay(check, doc, lenient=False):
     return execute(check, doc["case"], spec, doc["seed"])
 
 
+def reproduce_known(check, doc, sig, tries=60, budget_s=30.0):
+    """A stored reproducer of a known finding: exact schedule first; if the code under
+    test has changed shape (the schedule no longer fits) the same case is replayed leniently
+    and then searched with seeded schedules.  Returns (reproduced, how, result)."""
+    res = run_replay(check, doc)
+    if not res["harness_error"] and same_violation(res, sig) is not None:
+        return True, "exact-schedule", res
+    res = run_replay(check, doc, lenient=True)
+    if not res["harness_error"] and same_violation(res, sig) is not None:
+        return True, "lenient-schedule", res
+    found = find_schedule(check, doc["case"], sig, doc["seed"], tries, time.time() + budget_s)
+    if found is not None:
+        return True, "schedule-search", found[0]
+    return False, "not-reproduced", res
+
+
 def same_violation(res, sig):
     for v in res["violations"]:
         if v["sig"] == sig:
